@@ -111,6 +111,8 @@ type World struct {
 	lastHash []byte
 	prevCommitted []byte
 	LastCommitted int64 // height of the last block the main node committed
+	KeepDisks bool
+	DiskAt   map[int64]*simdb.Disk // copy of the main node's disk after each commit (KeepDisks)
 	ReqLog   []BlockReq // executed block requests (for twins)
 	ResLog   []BlockRes
 	KeepLogs bool
@@ -190,6 +192,9 @@ func NewWorld(sc *Scenario, mons ...Monitor) (*World, *CallErr) {
 	w.Prev = NewSnap(uint64(sc.InitialH-1), ex)
 	for _, m := range mons {
 		m.Genesis(w)
+	}
+	if w.KeepDisks {
+		w.DiskAt = map[int64]*simdb.Disk{sc.InitialH - 1: w.Disk.Clone()}
 	}
 	return w, nil
 }
@@ -326,6 +331,9 @@ func (w *World) Step(bo *BlockOp) bool {
 	}
 	b.Cur = NewSnap(uint64(h), ex)
 	b.EmCur = w.Emission()
+	if w.KeepDisks {
+		w.DiskAt[h] = w.Disk.Clone()
+	}
 	if w.KeepLogs {
 		w.ReqLog = append(w.ReqLog, b.Req)
 		w.ResLog = append(w.ResLog, b.Res)
